@@ -51,7 +51,11 @@ META = dict(
          'the code by exact comparison on explicit valid and invalid arguments and, for the random path of the library, of '
          'cnfshuffle and of -T shuffle, by recording the draws of the random module and replaying them in the model; sizes '
          '255-1000, every near-miss non-permutation of 7-10 entries with the right sum and sum of squares, degenerate '
-         'formulas and formula objects edited between two shuffles are part of every run.',
+         'formulas and formula objects edited between two shuffles are part of every run. Prop_C09_chain.v composes the two '
+         'whole-program models along the shell pipe `cnfgen <argv> | cnfshuffle <sargv>`: for every command line of the pipeline '
+         'grammar, every cnfshuffle command line reading standard input and every stream of draws, what comes out reads back as '
+         'a signed renaming and clause permutation of the family model (family + -T chain); the stream `pipe` feeds outputs of '
+         'the real cnfgen (equal to the bytes of its model) to the real cnfshuffle and to its model.',
     note='Trusted: Coq kernel, extraction, OCaml driver, the harness and its wrappers of random.choice/random.shuffle (they '
          'call the original functions). The contract of the random module (shuffle permutes its argument, choice returns an '
          'element) is checked at run time on the recorded draws only. Float/str arguments are outside the documented types '
